@@ -172,7 +172,7 @@ def tlc(sc, module, cfg=None, workers=None, timeout=600, extra=None, heap="8g",
     """Run TLC on spec/<module>.tla in the scratch copy of the spec directory."""
     sd = cwd or spec_dir(sc)
     meta = tempfile.mkdtemp(prefix="meta-", dir=sc)
-    cmd = ["java", "-XX:+UseParallelGC", "-Xmx" + heap, "-Xss" + stack,
+    cmd = ["java", "-XX:+UseParallelGC", "-Xmx" + heap, "-Xss" + stack, "-Djava.io.tmpdir=" + meta,
            "-cp", TLC_JAR, "tlc2.TLC", "-metadir", meta,
            "-workers", str(workers or NCPU)]
     if not deadlock:
